@@ -27,11 +27,20 @@ type c12Client struct {
 type c12Case struct {
 	Procs   int         `json:"procs"`
 	Clients []c12Client `json:"clients"`
+	// Hot: index of the object most opens of all clients go to (-1: none). State shared between the views of ONE
+	// object shows only while several connections are inside it at the same time.
+	Hot int `json:"hot"`
 }
 
+// the encrypted image: 300 sectors, all but 19 of them encrypted
+const c12EncSectors = 300
+
+var c12EncRegions = []refcrypt.Region{{Start: 0, End: 3}, {Start: 9, End: 12}, {Start: 290, End: 299}}
+
+
 func c12Tree(nclients int) *hx.Node {
-	enc := hx.PRFBytes(881, 0, 40*2048)
-	copy(enc, refcrypt.EncodeTable([]refcrypt.Region{{Start: 0, End: 3}, {Start: 9, End: 12}, {Start: 20, End: 39}}))
+	enc := hx.PRFBytes(881, 0, c12EncSectors*2048)
+	copy(enc, refcrypt.EncodeTable(c12EncRegions))
 	priv := hx.Dir("priv")
 	for i := 0; i < nclients; i++ {
 		priv.Children = append(priv.Children, hx.Dir(fmt.Sprintf("c%d", i), hx.File("seed.bin", 100, uint64(200+i))))
@@ -64,21 +73,21 @@ func c12CDs() *hx.Node {
 }
 
 func c12EncObj() hx.Obj {
-	enc := hx.PRFBytes(881, 0, 40*2048)
-	tab := refcrypt.Table{Plain: []refcrypt.Region{{Start: 0, End: 3}, {Start: 9, End: 12}, {Start: 20, End: 39}}, Bytes: 32}
+	enc := hx.PRFBytes(881, 0, c12EncSectors*2048)
+	tab := refcrypt.Table{Plain: c12EncRegions, Bytes: 32}
 	copy(enc, refcrypt.EncodeTable(tab.Plain))
 	a, _ := refcrypt.Plaintext(enc, c11KeyA, tab, false, false)
 	b, _ := refcrypt.Plaintext(enc, c11KeyA, tab, false, true)
 	return hx.MultiObj{a, b}
 }
 
-func genC12Client(t *rapid.T, idx int, l string) c12Client {
+func genC12Client(t *rapid.T, idx int, l string, hot int) c12Client {
 	var reqs []hx.Req
 	priv := fmt.Sprintf("/priv/c%d", idx)
 	objs := []struct {
 		path string
 		size int64
-	}{{"/shared/big.bin", 400000}, {"/shared/mid.bin", 70000}, {"/shared/small.bin", 300}, {"/***DVD***/GAME", 400000}, {"/PS3ISO/e.iso", 40 * 2048},
+	}{{"/shared/big.bin", 400000}, {"/shared/mid.bin", 70000}, {"/shared/small.bin", 300}, {"/***DVD***/GAME", 400000}, {"/PS3ISO/e.iso", c12EncSectors * 2048},
 		{"/cd/cd2048.bin", 400000}, {"/cd/cd2352.bin", 400000}, {"/cd/cd2448.bin", 400000}, {"/cd/cd2336.bin", 400000}}
 	cur := -1
 	n := rapid.IntRange(3, 25).Draw(t, l+"-n")
@@ -88,6 +97,9 @@ func genC12Client(t *rapid.T, idx int, l string) c12Client {
 		switch {
 		case cur < 0 || k == 0 || k == 13:
 			cur = rapid.IntRange(0, len(objs)-1).Draw(t, li+"-obj")
+			if hot >= 0 && rapid.IntRange(0, 4).Draw(t, li+"-hot") > 0 {
+				cur = hot
+			}
 			reqs = append(reqs, hx.Req{Op: "OPEN_FILE", Path: hx.BStr(objs[cur].path)})
 		case k <= 6:
 			size := objs[cur].size
@@ -135,8 +147,16 @@ func genC12(t *rapid.T) c12Case {
 	if hx.Thorough() && rapid.IntRange(0, 9).Draw(t, "many") == 0 {
 		n = rapid.SampledFrom([]int{32, 64}).Draw(t, "clients-many")
 	}
+	c.Hot = -1
+	if rapid.IntRange(0, 2).Draw(t, "hotcase") == 0 {
+		// 0 big.bin, 3 the generated image, 4 the encrypted image, 5.. the CD images
+		c.Hot = rapid.SampledFrom([]int{4, 4, 3, 3, 0, 5, 6, 7}).Draw(t, "hot")
+		if n < 4 {
+			n = 4
+		}
+	}
 	for i := 0; i < n; i++ {
-		c.Clients = append(c.Clients, genC12Client(t, i, fmt.Sprintf("c%d", i)))
+		c.Clients = append(c.Clients, genC12Client(t, i, fmt.Sprintf("c%d", i), c.Hot))
 	}
 	return c
 }
@@ -236,6 +256,9 @@ func runC12(c c12Case, st *hx.Stats) error {
 		}
 	}
 	st.Label(fmt.Sprintf("clients=%d", len(c.Clients)), fmt.Sprintf("GOMAXPROCS=%d", c.Procs))
+	if c.Hot >= 0 {
+		st.Label(fmt.Sprintf("most opens of all clients go to one object (#%d)", c.Hot))
+	}
 	if overl {
 		total := 0
 		for _, cl := range c.Clients {
